@@ -59,6 +59,9 @@ type snapshotBatchedIter[S memdbSnapshot] struct {
 	pos       int
 	batchSize int
 	nextKey   []byte
+	// exhausted: a reverse scan has returned the empty key, nothing is smaller
+	// (an empty upper bound would mean "unbounded" and restart the scan).
+	exhausted bool
 }
 
 func (s *SnapshotWithMutex[S]) BatchedSnapshotIter(lower, upper []byte, reverse bool) Iterator {
@@ -92,6 +95,11 @@ func (it *snapshotBatchedIter[_]) fillBatch() error {
 	} else {
 		it.keys = it.keys[:0]
 		it.values = it.values[:0]
+	}
+
+	if it.exhausted {
+		it.pos = 0
+		return nil
 	}
 
 	var snapshotIter Iterator
@@ -129,6 +137,7 @@ func (it *snapshotBatchedIter[_]) fillBatch() error {
 		keyLen := len(lastKey)
 
 		if it.reverse {
+			it.exhausted = keyLen == 0
 			if cap(it.nextKey) >= keyLen {
 				it.nextKey = it.nextKey[:keyLen]
 			} else {
